@@ -1,4 +1,5 @@
 -- C03: abstract theorems (any parser family with the incremental law) and their instantiation
 -- with the transcribed package decoders (Model/Codec/Pkg.lean)
 import Dblib.Props.C03.Abstract
+import Dblib.Props.C03.History
 import Dblib.Props.C03.Concrete
